@@ -1,4 +1,4 @@
 Require Import QtlVerif.AmalgamDefs.
 Require Extraction.
 Require Import ExtrOcamlBasic.
-Extraction "amalgam_model.ml" expand finish generate sources emitted included starved.
+Extraction "amalgam_model.ml" expand finish generate sources emitted included starved met.
